@@ -214,12 +214,23 @@ func JudgeTiming(c *TimingCase) *TimingResult {
 		t.mass()
 	case "expiry":
 		t.expiry()
+	case "redeadline":
+		t.redeadline()
 	default:
 		res.Fail = "unknown scenario kind " + c.Kind
 	}
 	if res.Fail == "" {
 		if d := t.p.Down(); d != "" {
 			res.Fail = "connection torn down although the test closed nothing: " + d
+		}
+	}
+	if c.Kind == "redeadline" {
+		// This scenario also carries the C23/C24 oracles.
+		if wv := t.p.WireVerdict(); len(wv) > 0 {
+			if res.Fail != "" {
+				res.Fail += " || "
+			}
+			res.Fail += "wire protocol violated: " + wv[0]
 		}
 	}
 	res.Classes = append(res.Classes, c.Kind+"/"+c.Release)
@@ -976,4 +987,158 @@ func (t *timingRun) expiry() {
 			return
 		}
 	}
+}
+
+// redeadline: the peer does not read, a Write blocks on the exhausted send
+// window, another goroutine sets a past deadline (SetWriteDeadline or
+// SetDeadline), the Write returns the deadline error, the deadline is cleared
+// or moved to the future and a further non-empty Write is issued while the
+// window is still exhausted; repeated K times; finally the peer reads
+// everything. Nothing may tear the connection down, no zero-length data
+// message may appear on the wire, all accepted bytes arrive in order.
+// Release: "clear-write", "clear-both", "future-write", "future-both".
+func (t *timingRun) redeadline() {
+	c := t.c
+	x, y, ok := t.streamsFor()
+	if !ok {
+		return
+	}
+	side := c.Side & 1
+	window := int(c.Cfg[1-side].window())
+	both := c.Release == "clear-both" || c.Release == "future-both"
+	future := c.Release == "future-write" || c.Release == "future-both"
+	set := func(tm time.Time) error {
+		if both {
+			return x.SetDeadline(tm)
+		}
+		return x.SetWriteDeadline(tm)
+	}
+	const key = 4242
+	off := 0
+	write := func(n int) chan callRes {
+		data := make([]byte, n)
+		fill(data, key, uint64(off))
+		return asyncCall(func() (int, error) { return x.Write(data) })
+	}
+	reps := min(max(c.K, 1), 3)
+	extra := max(c.N, 1)
+	allPending, firstPending := true, true
+	for i := 0; i < reps; i++ {
+		n := extra
+		if i == 0 {
+			n = window + extra
+		}
+		ch := write(n)
+		if !pendingAfter(ch, t.pre()) {
+			allPending = false
+		}
+		var err error
+		if !t.bounded("setting a past deadline while a Write is blocked", func() { err = set(time.Now().Add(-time.Second)) }) {
+			return
+		}
+		if err != nil {
+			t.failf("setting a past deadline on an open stream returned %v", err)
+			return
+		}
+		r, ok := awaitCall(ch, releaseBound)
+		if !ok {
+			t.failf("Write blocked on an exhausted window still blocked %v after a past deadline was set (round %d)", releaseBound, i)
+			return
+		}
+		if r.err == nil && r.n == n && off+r.n <= window {
+			// The Write had room after all (a slow carrier had not let the
+			// earlier bytes through yet) and finished before the deadline
+			// was set: legitimate, just not the interesting schedule.
+			allPending = false
+		} else if !isErr(r.err, os.ErrDeadlineExceeded) || r.n < 0 || r.n > n {
+			t.failf("Write blocked on an exhausted window (peer window %d, %d bytes accepted before) and given a past deadline returned (%d, %v), want a deadline error (round %d)", window, off, r.n, r.err, i)
+			return
+		}
+		off += r.n
+		if off > window {
+			t.failf("%d bytes accepted although the peer, which never read, has a receive window of %d", off, window)
+			return
+		}
+		var tm time.Time
+		if future {
+			tm = time.Now().Add(time.Hour)
+		}
+		if err := set(tm); err != nil {
+			t.failf("resetting the deadline on an open stream returned %v", err)
+			return
+		}
+		if i == 0 {
+			firstPending = allPending
+		}
+	}
+	if future {
+		// Observation, not a violation of C23-C25: in this implementation a
+		// deadline that has expired stays expired when it is moved to the
+		// future (only the zero time clears it), so the Writes of the later
+		// rounds may have failed at once instead of blocking. Clear it for
+		// the final transfer either way.
+		if !allPending && firstPending {
+			t.res.Classes = append(t.res.Classes, "redeadline/expired-deadline-not-refreshed-by-future-deadline")
+		}
+		allPending = firstPending
+		if err := set(time.Time{}); err != nil {
+			t.failf("clearing the deadline on an open stream returned %v", err)
+			return
+		}
+	}
+	t.res.NonTrivial = allPending
+	if window == 0 {
+		// Nothing can ever flow: a last non-empty Write under its own short
+		// deadline must expire without sending anything.
+		x.SetWriteDeadline(time.Now().Add(5 * time.Millisecond))
+		r, ok := awaitCall(write(extra), releaseBound)
+		if !ok || !isErr(r.err, os.ErrDeadlineExceeded) || r.n != 0 {
+			t.failf("Write towards a zero receive window under a 5 ms deadline: returned=%v (%d, %v)", ok, r.n, r.err)
+		}
+		t.p.Settle()
+		return
+	}
+	// Final write, and the peer reads everything.
+	final := write(extra)
+	rch := asyncCall(func() (int, error) {
+		buf := make([]byte, 32<<10)
+		got := 0
+		for {
+			n, err := y.Read(buf)
+			if i := mismatch(buf[:n], key, uint64(got)); i >= 0 {
+				return got, fmt.Errorf("byte %d differs from what was written", got+i)
+			}
+			got += n
+			if err == io.EOF {
+				return got, nil
+			}
+			if err != nil {
+				return got, err
+			}
+		}
+	})
+	r, ok := awaitCall(final, releaseBound)
+	if !ok {
+		t.failf("Write of %d bytes with the peer reading everything still blocked after %v (it follows %d Writes that expired while blocked on the window)", extra, releaseBound, reps)
+		return
+	}
+	if r.err != nil || r.n != extra {
+		t.failf("Write of %d bytes after the deadline was reset, with the peer reading, returned (%d, %v)", extra, r.n, r.err)
+		return
+	}
+	off += r.n
+	if err := x.CloseWrite(); err != nil {
+		t.failf("CloseWrite returned %v", err)
+		return
+	}
+	rr, ok := awaitCall(rch, releaseBound)
+	if !ok {
+		t.failf("peer reader did not reach end-of-stream within %v (%d bytes accepted by Write)", releaseBound, off)
+		return
+	}
+	if rr.err != nil || rr.n != off {
+		t.failf("peer read %d bytes (error %v), %d were accepted by Write", rr.n, rr.err, off)
+		return
+	}
+	t.p.Settle()
 }
